@@ -190,21 +190,21 @@ func init() {
 	ext["(*sync.RWMutex).RLock"] = func(fr *frame, args []value) value { Sched.rlock(args[0].(*value)); return nil }
 	ext["(*sync.RWMutex).RUnlock"] = func(fr *frame, args []value) value { Sched.runlock(args[0].(*value)); return nil }
 	ext["(*sync.WaitGroup).Add"] = func(fr *frame, args []value) value {
+		Sched.point()
 		w := Sched.wg(args[0].(*value))
 		w.n += int(concInt(args[1], "WaitGroup.Add"))
 		if w.n < 0 {
 			panic(rtError("sync: negative WaitGroup counter"))
 		}
-		Sched.point()
 		return nil
 	}
 	ext["(*sync.WaitGroup).Done"] = func(fr *frame, args []value) value {
+		Sched.point()
 		w := Sched.wg(args[0].(*value))
 		w.n--
 		if w.n < 0 {
 			panic(rtError("sync: negative WaitGroup counter"))
 		}
-		Sched.point()
 		return nil
 	}
 	ext["(*sync.WaitGroup).Wait"] = func(fr *frame, args []value) value {
